@@ -996,6 +996,15 @@ class FnEmitter:
                     self.fire('R8', 'mut parameter %s rebound by `let mut`' % name)
             self.fire('R5', '%s %d of %s lifted into %s' % (kind_, n_, '%s::%s' % (spec.target[0], spec.target[2]), spec.qname))
             edits = self.body_edits(first, c)
+            if kind_ == 'match':
+                # R5: the lifted statement was the body of its loop: a `continue` of that loop (not nested in an inner
+                # loop of the lifted text) ends the body, i.e. becomes `return`
+                inner = [(a_ + first, b_ + first) for (_k, a_, b_, _l) in find_loops(toks[first:c + 1])]
+                for z in range(first, c):
+                    if toks[z].kind == 'ident' and toks[z].text == 'continue' and toks[z + 1].text == ';' \
+                            and not any(a_ < z < b_ for (a_, b_) in inner):
+                        edits.append(Edit(toks[z].start, toks[z].end, 'return', rule='R5-continue'))
+                        self.fire('R5-continue', '`continue` of the enclosing loop -> `return` of the lifted body')
             body = '{\n    ' + ' '.join('let mut %s = %s;' % (n_, n_) for n_ in self.mut_params) + apply_edits(src, toks[first].start, toks[c].end, edits) + '\n}'
             orig = src[toks[first].start:toks[c].end]
             span = (toks[first].start, toks[c].end)
